@@ -258,6 +258,18 @@ Theorem C12_auth_chan_closed_refuted :
   exists s, aexec true ainit [ASetup; ANonce; ADrop; ASetup; ANonce] = Some s /\ aout_ s = APanic.
 Proof. exact auth_chan_closed_refuted. Qed.
 
+(** A connection attempt that falls into a black hole (TCP accepted, handshake never
+    answered): with a deadline on the handshake the attempt ends and the loop goes on
+    to its next attempt (C12_reconnect_done_after_failed_attempts then applies);
+    without one it never ends - the repaired defect. *)
+Theorem C12_handshake_deadline_ends_attempt :
+  forall d waited, d <= waited -> hstep (Some d) waited HGiveUp = Some 0.
+Proof. exact handshake_deadline_ends_attempt. Qed.
+
+Theorem C12_handshake_without_deadline_refuted :
+  forall waited, hstep None waited HGiveUp = None.
+Proof. exact handshake_without_deadline_refuted. Qed.
+
 (** PARTIAL (liveness): after a drop the path ping failure -> reconnect -> done is
     enabled and re-establishes the connection; that it is taken within a bounded
     time is a fairness / wall-clock fact, not proved. *)
